@@ -364,6 +364,9 @@ def main():
             ck.count("C_wait_value_ge_1")
         if has_wait or (nd and len(ops) > nd) or len(bds) > 1:
             nontrivial.add(("C", d.get("stream")))
+        for pth in d.get("paths", "").split(","):
+            if pth:
+                ck.count("C_blockdep_path_" + pth)
         if d.get("skip", "0") != "0":
             ck.count("C_observation_overlap_with_kernel_two_back", int(d["skip"]))
         if d.get("lazy") != "1":
@@ -487,7 +490,14 @@ def main():
     if ansD:
         ck.sample({"D_network": ownersD[0][0].get("desc"), "opts": ownersD[0][0].get("opts"), "answer": ansD[0][:200]})
 
+    unreached = [p for p in ("noPrev", "lutShram", "both", "noOverlap", "broadcastIfm2", "loop")
+                 if not ck.counters.get("C_blockdep_path_" + p)] if only is None else []
+    if only is None:
+        for name, key in (("waits: wait value >= 1", "C_wait_value_ge_1"), ("range_set: assertion in the sweep", "A_result_err:assert")):
+            if not ck.counters.get(key):
+                unreached.append(name)
     ck.finish({
+        "unreached_branches": unreached,
         "evaluations": evaluations,
         "distinct_nontrivial": len(nontrivial),
         "rule": "A: distinct (kind, sizes, result) with both range sets non-empty; B: distinct (kinds, limits, waits) with at least one wait; "
